@@ -26,6 +26,7 @@ type Case struct {
 	Edits     []c02.EditRef `json:"edits"`
 	Qualifier string        `json:"qualifier"` // none | empty | custom
 	Mode      int           `json:"mode"`
+	Flavour   string        `json:"flavour,omitempty"` // MySQL family: "" = mysql.DefaultPlan; mysql8 | mysql57 | maria | tidb = the planner of a driver opened against that server
 	Span      string        `json:"span"` // "" | add-schema | drop-schema | modify-schema | two-schemas | enum-other-schema | fk-other-schema
 }
 
@@ -204,7 +205,15 @@ func checkCase(c Case) (Outcome, error) {
 		q := Custom
 		opts = append(opts, func(o *migrate.PlanOptions) { o.SchemaQualifier = &q })
 	}
-	plan, err := planner(c.Dialect).PlanChanges(context.Background(), "plan", changes, opts...)
+	pl := planner(c.Dialect)
+	if c.Dialect == "mysql" && c.Flavour != "" {
+		drv, err := gm.OpenMySQL(c.Flavour)
+		if err != nil {
+			return out, fmt.Errorf("harness: %v", err)
+		}
+		pl = drv
+	}
+	plan, err := pl.PlanChanges(context.Background(), "plan", changes, opts...)
 	if c.Qualifier != "none" && mustReject {
 		if err == nil {
 			return out, fmt.Errorf("%s: a change set spanning outside the schema (%s) was planned instead of rejected (qualifier %s, mode %d):\n%s", c.Dialect, c.Span, c.Qualifier, c.Mode, dump(plan))
